@@ -240,3 +240,28 @@ Proof.
   exists g'. split; [exact E|]. unfold hsinv in K2. change (spec_next false SStart) with true in K2.
   apply andb_prop in K2. tauto.
 Qed.
+
+(* ======================= readable forms ======================= *)
+Theorem tftp_concurrent_lifecycle (ops : list (list op)) (sch : list choice) :
+  let s := trun (tpool ops) sch in
+  err (g s) = false /\
+  (all_done glob cpc op is_idle s = false -> exists ch, tstep s ch <> None) /\
+  (all_done glob cpc op is_idle s = true -> Running (g s) = true \/ Stopped (g s) = true).
+Proof.
+  intros s. destruct (tftp_concurrent ops sch) as (HI & HL & HQ). fold s in HI, HL, HQ.
+  split; [apply tinv_err; exact HI|]. split; [exact HL|].
+  intros Hd. specialize (HQ Hd). unfold quiet in HQ. apply andb_prop in HQ. destruct HQ as [HQ _].
+  apply orb_prop in HQ. exact HQ.
+Qed.
+
+Theorem http_concurrent_lifecycle (ops : list (list hop)) (sch : list choice) :
+  let s := hrun (hpool ops) sch in
+  herr (g s) = false /\
+  (all_done hglob hpc hop his_idle s = false -> exists ch, hstep s ch <> None) /\
+  (all_done hglob hpc hop his_idle s = true -> HRunning (g s) = true \/ HStopped (g s) = true).
+Proof.
+  intros s. destruct (http_concurrent ops sch) as (HI & HL & HQ). fold s in HI, HL, HQ.
+  split; [apply hinv_err; exact HI|]. split; [exact HL|].
+  intros Hd. specialize (HQ Hd). unfold hquiet in HQ. apply andb_prop in HQ. destruct HQ as [HQ _].
+  apply orb_prop in HQ. exact HQ.
+Qed.
